@@ -338,6 +338,70 @@ Theorem C15_unparsable_client_address : forall (r : rl) (now : Z) (l : lim_liste
 Proof. intros r now l. split; reflexivity. Qed.
 Print Assumptions C15_unparsable_client_address.
 
+(* ---- one long-lived stream connection: limiter + in-flight counter (round 6) ----
+
+   [lsc_run l maxc s es]: a tcp / tls / gnet / quic connection (state = the resourceLimiter and the per-connection counter of
+   queries in flight) runs a script of events: [LscArrive now a hit] a query has been read, [LscDone] the reply of a handled query
+   has been written.  tcp / tls / gnet refuse a query when counter + 1 > max_concurrent_queries, tcp / tls / quic when the
+   limiter refuses it (Limit/Limiter.v lsc_step_gen). *)
+
+(* The slot a query takes is given back on EVERY path: after any script the counter is the number of handled queries
+   minus the number of replies written (a query refused by the cap or by the limiter holds nothing), so at quiescence
+   it is back at its initial value (0 for a new connection). *)
+Theorem C15_stream_slots_returned : forall (l : lim_listener) (maxc : Z) (s : lsconn) (es : list lsc_ev),
+  lsc_inflight (fst (lsc_run l maxc s es)) =
+    lsc_inflight s + lsc_count_answered (snd (lsc_run l maxc s es)) - lsc_count_done es /\
+  (lsc_count_answered (snd (lsc_run l maxc s es)) = lsc_count_done es ->
+   lsc_inflight (fst (lsc_run l maxc s es)) = lsc_inflight s).
+Proof. intros l maxc s es. split; [apply lsc_inflight_run|apply lsc_quiescent]. Qed.
+Print Assumptions C15_stream_slots_returned.
+
+(* A query on a stream connection is refused only if the cap or the limiter says so AT THAT MOMENT; on a quiescent
+   connection (after any script whose handled queries have all been answered; cap >= 1) the answer is the limiter's
+   decision for the client's address alone: whatever was refused earlier on the connection, a client whose subnet is
+   within budget (C15_client_refusal_means_own_budget) is served. *)
+Theorem C15_stream_refusal_reasons : forall (l : lim_listener) (maxc : Z) (s : lsconn) (now : Z) (a : lim_addr) (hit : bool),
+  (exists o, snd (lsc_step l maxc s (LscArrive now a hit)) = Some o /\
+     (forwards o = false <->
+      lsc_cap_hit l maxc s = true \/
+      exists c, query_cost l = Some c /\ rl_is_ok (snd (rl_allow (lsc_rl s) now a c)) = false)) /\
+  (forall s0 es, s = fst (lsc_run l maxc s0 es) -> lsc_inflight s0 = 0 -> 1 <= maxc ->
+     lsc_count_answered (snd (lsc_run l maxc s0 es)) = lsc_count_done es ->
+     snd (lsc_step l maxc s (LscArrive now a hit)) = Some (snd (accept_query (lsc_rl s) now l a hit))).
+Proof.
+  intros l maxc s now a hit. split; [apply lsc_refusal_reasons|].
+  intros s0 es -> I M Q.
+  rewrite lsc_quiescent_limiter_only; [reflexivity| |exact M].
+  rewrite (lsc_quiescent l maxc es s0 Q). exact I.
+Qed.
+Print Assumptions C15_stream_refusal_reasons.
+
+(* The variant in which a query refused by the LIMITER keeps its slot: rate 1/s, burst 7, cap 2, one tcp connection; two
+   queries handled, two refused by the limiter, all replies written (quiescent), counter = 2; three seconds later the
+   limiter would serve the client (3 tokens) and the connection is idle, yet the query is refused. *)
+Theorem C15_stream_leak_refuted : exists (l : lim_listener) (maxc : Z) (s0 : lsconn) (es : list lsc_ev) (now : Z) (a : lim_addr),
+  lsc_inflight s0 = 0 /\ 1 <= maxc /\
+  let r := lsc_run_gen true l maxc s0 es in
+  lsc_count_answered (snd r) = lsc_count_done es /\
+  lsc_inflight (fst r) <> 0 /\
+  snd (accept_query (lsc_rl (fst r)) now l a false) = OAnswered /\
+  snd (lsc_step_gen true l maxc (fst r) (LscArrive now a false)) = Some ORefused.
+Proof.
+  exists LmTcp, 2, (mkLsconn scw_rl 0), scw_script, 3000000000, scw_client.
+  destruct scw_witness as (_ & B & I & R & A & _).
+  split; [reflexivity|]. split; [discriminate|]. cbv zeta.
+  split; [exact B|]. split; [rewrite I; discriminate|]. split; [exact A|exact R].
+Qed.
+Print Assumptions C15_stream_leak_refuted.
+
+(* A peer WITHOUT an IP address (http / https / tcp listener on a unix socket: the zero netip.Addr) is never charged:
+   not the connection cost at accept, not a query cost; the state of the limiter is unchanged.  The clients behind such
+   a connection are limited by the address in the client_addr_header, per request (accept_query with that address). *)
+Theorem C15_no_address_no_charge : forall (r : rl) (now n : Z) (l : lim_listener),
+  rl_allow r now LANone n = (r, RlOk) /\ accept_conn r now l LANone = (r, OAccepted).
+Proof. exact no_address_no_charge. Qed.
+Print Assumptions C15_no_address_no_charge.
+
 (* ---- non-vacuity ---- *)
 
 (* 192.168.1.1 and 192.168.1.200 share a bucket, 192.168.2.1 does not; ::ffff:192.168.1.7 is charged to
@@ -397,4 +461,14 @@ Example C15_global_example :
     = [true; true; true; true; true; false; false; false; false; false; true; true] /\
   lim_lookup cfw_key (rl_table (rl_final (rl_of_config cfw_cfg 0) (firstn 10 cfw_history))) = None /\
   rl_granted (set_default (cfg_opts cfw_cfg)) cfw_key 0 1100000000 cfw_history (rl_decisions (rl_of_config cfw_cfg 0) cfw_history) = 2.
+Proof. vm_compute. repeat split; reflexivity. Qed.
+
+(* the same script on the correct machine: the seventh query (3 s later, 3 tokens) is answered, the counter is 0 *)
+Example C15_stream_example :
+  snd (lsc_run LmTcp 2 (mkLsconn scw_rl 0) (scw_script ++ [LscArrive 3000000000 scw_client false]))
+    = [Some OAnswered; Some OAnswered; None; None; Some ORefused; Some ORefused; Some OAnswered] /\
+  lsc_inflight (fst (lsc_run LmTcp 2 (mkLsconn scw_rl 0) scw_script)) = 0 /\
+  snd (lsc_run LmTcp 1 (mkLsconn (rl_of_config (mkLimCfg 0 1 50 24 48) 0) 0)
+         [LscArrive 0 scw_client false; LscArrive 0 scw_client false; LscDone; LscArrive 0 scw_client false])
+    = [Some OAnswered; Some ORefused; None; Some OAnswered].
 Proof. vm_compute. repeat split; reflexivity. Qed.
